@@ -53,31 +53,25 @@ Theorem C13_add_bank_permissionless_valid :
   forall g s oracle_check b, ix_add_bank_permissionless s oracle_check = Ok b -> Valid g b.
 Proof. exact add_bank_permissionless_valid. Qed.
 
-(* full configure, interest-only, limits-only, e-mode configure, staked-settings propagation *)
+(* full configure, interest-only, limits-only, e-mode configure, e-mode clone, staked-settings propagation,
+   curve migration.  req_ok r is True for every request except clone, where it asks that the source
+   bank is itself Valid (for the caps in force when its entries were written): all banks of a group are
+   in the invariant together. *)
 Theorem C13_paths_preserve_valid :
-  forall g b r b', not_clone r -> apply_req g b r = Ok b' -> Valid g b -> Valid g b'.
+  forall g b r b', req_ok r -> apply_req g b r = Ok b' -> Valid g b -> Valid g b'.
 Proof. exact paths_preserve_valid. Qed.
 
 Theorem C13_sequences_preserve_valid :
-  forall g rs b, Forall not_clone rs -> Valid g b -> Valid g (apply_reqs g b rs).
+  forall g rs b, Forall req_ok rs -> Valid g b -> Valid g (apply_reqs g b rs).
 Proof. exact sequences_preserve_valid. Qed.
 
-(* e-mode clone: refuted in general (finding emode-clone-unvalidated, DESIGN §8 F4) ... *)
-Theorem C13_clone_emode_refuted :
-  exists g src dst dst',
-    Valid g src /\ Valid g dst /\ ix_clone_emode src dst = Ok dst' /\
-    em_validate (cb_emode dst') (cb_cfg dst') (cap_init g) (cap_maint g) = Err EBadEmodeConfig /\
-    (exists e, In e (es_entries (cb_emode dst')) /\ ee_is_empty e = false /\ bc_lwi (cb_cfg dst') <= ee_init e).
-Proof. exact clone_emode_refuted. Qed.
-
-(* ... and sound exactly when the source's entries pass the destination's validation *)
-Theorem C13_clone_emode_restricted :
+(* e-mode clone (repaired by /repo f3ce7b8f, former finding emode-clone-unvalidated): the copied entries
+   are accepted only if they pass the DESTINATION's validation *)
+Theorem C13_clone_emode_valid :
   forall g src dst dst',
-  ix_clone_emode src dst = Ok dst' -> cfg_valid (cb_cfg dst) ->
-  em_validate (cb_emode src) (cb_cfg dst) (cap_init g) (cap_maint g) = Ok tt ->
-  es_sorted (es_entries (cb_emode src)) ->
-  Valid g dst'.
-Proof. exact clone_emode_restricted. Qed.
+  ix_clone_emode g src dst = Ok dst' -> cfg_valid (cb_cfg dst) ->
+  es_sorted (es_entries (cb_emode src)) -> Valid g dst'.
+Proof. exact clone_emode_valid. Qed.
 
 (* changing liability weights after e-mode entries were set: an unfrozen configure re-runs the entry
    validation against the new weights *)
@@ -91,15 +85,15 @@ Theorem C13_no_request_kills :
   forall g b r b', apply_req g b r = Ok b' -> op_of b <> OP_KILLED -> op_of b' <> OP_KILLED.
 Proof. exact no_request_kills. Qed.
 
-(* leaving the killed state: refuted (finding killed-bank-revived, DESIGN §8 F3) ... *)
-Theorem C13_killed_revived_refuted :
-  exists g b o b', Valid g b /\ op_of b = OP_KILLED /\ ix_configure_bank g b o = Ok b' /\ op_of b' = OP_OPERATIONAL.
-Proof. exact killed_revived_refuted. Qed.
+(* (repaired by /repo d85d2d97, former finding killed-bank-revived) no admin request takes a bank out of
+   the killed state, neither one request nor any sequence *)
+Theorem C13_killed_forever :
+  forall g b r b', apply_req g b r = Ok b' -> op_of b = OP_KILLED -> op_of b' = OP_KILLED.
+Proof. exact killed_forever. Qed.
 
-(* ... and that is the only way out: an unfrozen full configure that names an operational state *)
-Theorem C13_killed_stays_killed_except_configure :
-  forall g b r b', apply_req g b r = Ok b' -> op_of b = OP_KILLED -> ~ may_revive b r -> op_of b' = OP_KILLED.
-Proof. exact killed_stays_killed. Qed.
+Theorem C13_killed_forever_sequences :
+  forall g rs b, op_of b = OP_KILLED -> op_of (apply_reqs g b rs) = OP_KILLED.
+Proof. exact killed_forever_seq. Qed.
 
 (* ---- the buffer *)
 Theorem C13_reconcile_keeps_init_le_maint :
@@ -140,8 +134,8 @@ Theorem C13_init_discount_in_unit_interval :
 Proof. exact init_discount_range. Qed.
 
 (* Non-vacuity: a concrete valid bank with an accepted e-mode entry at 8x / 16x leverage against the 15x / 20x
-   caps, a portfolio on which both health evaluations succeed with the e-mode weight in force, and a
-   rejected configuration *)
+   caps, a portfolio on which both health evaluations succeed with the e-mode weight in force, rejected
+   configurations, and the regression witnesses of the two repaired findings *)
 Definition ex_cfg : bank_cfg := w_cfg ONE ONE OP_OPERATIONAL.
 Definition ex_entries : list emode_entry := [mkEE 7 0 (ONE - ONE / 8) (ONE - ONE / 16)].
 Definition ex_lender : cbank := mkCBank ex_cfg CLOSE_ENABLED_FLAG (mkES 0 0 1 ex_entries).
@@ -155,11 +149,17 @@ Example C13_nonvacuous :
   account_health_no_emode CRInitial ex_portfolio = Ok (500 * ONE, 800 * ONE) /\
   is_ok (bc_validate (w_cfg ONE (ONE + 1) OP_OPERATIONAL)) = false /\
   is_ok (ix_configure_bank w_caps ex_lender
-           (mkCO None None None None None None (Some OP_KILLED) None None None None None None None None None)) = false.
+           (mkCO None None None None None None (Some OP_KILLED) None None None None None None None None None)) = false /\
+  (* the two repaired defects: reviving a killed bank and cloning entries that do not fit the destination fail *)
+  Valid w_caps w_killed /\ ix_configure_bank w_caps w_killed w_revive_opt = Err EBankKilled /\
+  Valid w_caps w_src /\ ix_clone_emode w_caps w_src w_dst = Err EBadEmodeConfig /\
+  is_ok (ix_clone_emode w_caps w_src w_src) = true.
 Proof.
   split; [split; [vm_compute; reflexivity | split; [vm_compute; reflexivity |
     repeat constructor]] |].
-  repeat split; vm_compute; reflexivity.
+  do 5 (split; [vm_compute; reflexivity|]).
+  split; [exact w_killed_valid|]. split; [vm_compute; reflexivity|].
+  split; [exact w_src_valid|]. split; vm_compute; reflexivity.
 Qed.
 
 Print Assumptions C13_validate_sound.
@@ -170,12 +170,11 @@ Print Assumptions C13_add_bank_valid.
 Print Assumptions C13_add_bank_permissionless_valid.
 Print Assumptions C13_paths_preserve_valid.
 Print Assumptions C13_sequences_preserve_valid.
-Print Assumptions C13_clone_emode_refuted.
-Print Assumptions C13_clone_emode_restricted.
+Print Assumptions C13_clone_emode_valid.
 Print Assumptions C13_configure_revalidates_emode.
 Print Assumptions C13_no_request_kills.
-Print Assumptions C13_killed_revived_refuted.
-Print Assumptions C13_killed_stays_killed_except_configure.
+Print Assumptions C13_killed_forever.
+Print Assumptions C13_killed_forever_sequences.
 Print Assumptions C13_reconcile_keeps_init_le_maint.
 Print Assumptions C13_buffer.
 Print Assumptions C13_buffer_with_emode.
